@@ -91,6 +91,18 @@ def resolveN (tbl : List FlagInfo) (levels : List (List Nat)) (level : Nat) (ovn
   let m := impliesFix tbl (tbl.length + 1) m
   exclPass tbl ovn m
 
+/-- `exclPass` / `resolveN` with the two recursion budgets as parameters (`resolveN` uses
+    `tbl.length + 1` for both): lets statements about a sub-table use the budgets of the whole table. -/
+def exclPassF (tbl : List FlagInfo) (fe : Nat) (ovn : FlagMap) (m : FlagMap) : Option FlagMap :=
+  foldOpt (fun (p : Nat × Bool) m => if m.get p.1 then exclAux tbl ovn fe p.1 m else some m) ovn m
+
+def resolveNF (tbl : List FlagInfo) (fi fe : Nat) (levels : List (List Nat)) (level : Nat) (ovn : FlagMap) :
+    Option FlagMap :=
+  exclPassF tbl fe ovn (impliesFix tbl fi (applyOverrides ovn (applyLevels levels level (initFlags tbl))))
+
+theorem resolveN_eq_resolveNF (tbl : List FlagInfo) (levels : List (List Nat)) (level : Nat) (ovn : FlagMap) :
+    resolveN tbl levels level ovn = resolveNF tbl (tbl.length + 1) (tbl.length + 1) levels level ovn := rfl
+
 def resolve (tbl : List FlagInfo) (levels : List (List Nat)) (level : Nat) (ov : List (Nat × Bool)) :
     Option FlagMap :=
   resolveN tbl levels level (normalize ov)
